@@ -65,6 +65,25 @@ Theorem C13_handler : forall (S : Type) (cur : S) (conf other : Z) (effs : list 
 Proof. exact @handler_sound. Qed.
 Print Assumptions C13_handler.
 
+(* the handler ends the process by raising SystemExit in the interrupted frame.  For EVERY table of
+   guarded constructs (try/except, finally-with-return, contextlib.suppress) accepted by the checker
+   and every nesting of constructs from it around the interrupted statement, the exit reaches the
+   top: the process terminates with the configured code after exactly one checkpoint.  A single
+   intercepting construct on the path (e.g. `except BaseException:` without re-raise) defeats it.  *)
+Theorem C13_exit_reaches_top : forall (S : Type) (cur : S) (conf other : Z) (effs : list heff) (w : hworld S)
+    (npw : bool) (table path : list xentry),
+  handler_ok npw effs = true -> exit_code w = None ->
+  no_swallow table = true -> incl path table ->
+  process_exit (hrun cur conf other npw effs w) path = Some conf
+  /\ written (hrun cur conf other npw effs w) = written w ++ [cur].
+Proof. exact @exit_reaches_top. Qed.
+Print Assumptions C13_exit_reaches_top.
+
+Theorem C13_swallowed_refuted : forall (S : Type) (w : hworld S) (e : xentry) (path : list xentry),
+  intercepts e = true -> process_exit w (e :: path) = None.
+Proof. exact @swallowed_no_exit. Qed.
+Print Assumptions C13_swallowed_refuted.
+
 (* importance sampler: a forced (non-periodic) checkpoint returns before any file operation, so the
    last iteration-boundary checkpoint is left intact - for every statement list whose first
    non-logging statement is the `periodic is False -> return` guard                              *)
